@@ -227,7 +227,9 @@ var advTypeNames = []string{"router solicitation", "router advertisement", "neig
 func runAdv(t *testing.T, out *vfh.Out, op string, min, max time.Duration, unicastOnly bool, evs []advEvent, stop time.Duration, failWrite int) {
 	out.Pending(fmt.Sprintf("runAdv %s min=%v max=%v unicastOnly=%v events=%+v stop=%v failWrite=%d", op, min, max, unicastOnly, evs, stop, failWrite))
 	synctest.Test(t, func(t *testing.T) {
-		v := newVfAdv(vfAdvConfig(min, max, unicastOnly, 1800*time.Second), false, nil)
+		// a unicast-only interface is stopped as a TERMINATING one: it never transmits to a multicast
+		// destination at all — not even the final zero-lifetime RA
+		v := newVfAdv(vfAdvConfig(min, max, unicastOnly, 1800*time.Second), unicastOnly, nil)
 		if failWrite >= 0 {
 			v.conn.writeErr = func(n int, _ netip.Addr) error {
 				if n == failWrite {
